@@ -964,7 +964,7 @@ func c02SetMode(c *Ctx, m *Module) {
 	rd := m.Func("internal/telemetry", "Dir.Mode")
 	var rsep, rlayout string
 	for _, cs := range callsIn(rd, "strings.Index", "strings.Cut", "strings.IndexByte") {
-		rsep, _ = constOf(argsOf(cs)[1])
+		rsep, _ = sepConstOf(argsOf(cs)[1])
 	}
 	for _, cs := range callsIn(rd, "time.Parse") {
 		rlayout, _ = constOf(argsOf(cs)[0])
